@@ -191,6 +191,10 @@ class Interp:
                 raise AnalysisError(f"binop failed: {exc}") from exc
         if isinstance(op, ast.Add) and isinstance(left, (list, tuple)) and isinstance(right, type(left)):
             return left + right
+        if isinstance(op, ast.Mult) and isinstance(left, (list, tuple)) and isinstance(right, int) and not isinstance(right, bool):
+            return left * right
+        if isinstance(op, ast.Mult) and isinstance(right, (list, tuple)) and isinstance(left, int) and not isinstance(left, bool):
+            return left * right
         if isinstance(left, (set, frozenset)) and isinstance(right, (set, frozenset)):
             if isinstance(op, ast.Sub):
                 return {x for x in left if not any(x is y or x == y for y in right)}
